@@ -38,7 +38,7 @@ def run_one(patch):
         shutil.rmtree(d, ignore_errors=True)
 
 def main():
-    pats = sys.argv[1:] or sorted(glob.glob(os.path.join(VERIF, "selftest/mutants/*.patch")))
+    pats = [os.path.abspath(p) for p in sys.argv[1:]] or sorted(glob.glob(os.path.join(VERIF, "selftest/mutants/*.patch")))
     bad = 0
     with concurrent.futures.ThreadPoolExecutor(max_workers=3) as ex:
         for patch, ok, info in ex.map(run_one, pats):
